@@ -1,5 +1,5 @@
 (** C05 — Vary: a stored variant is only served to requests that select it. Statements only. *)
-From Coq Require Import Sorting.Sorted.
+From Coq Require Import Sorting.Sorted Lia ZifyBool ZifyNat ZifyN.
 From KV Require Import Bytes RustInt Range CacheControl Cache CacheProofs Fixture RustStd Vary VaryProofs VaryWire VaryWireProofs.
 Open Scope N_scope.
 
@@ -259,6 +259,51 @@ Section C05_wire.
     forall k, pc_find k (fst st') = pc_find k (fst st) \/ pc_find k (fst st') = None \/
               exists e', pc_find k (fst st') = Some e' /\ ve_created e' = now.
   Proof. exact (entry_changes_are_dated_lemma hstate compute cache_on ims_on parse_ims sanitize_ok prime negotiate rules_of dbg). Qed.
+  (** ... over histories.  A client holds the response [f] for the transformed tuple of its request [r], dated
+      [L]: the cache [c2] holds, under one of the two keys of the URL, an entry with that variant which is not
+      older than [L] — or no entry (the response was not admitted).  After any history all of whose requests
+      happen later than [L], a request [r'] for the same URL with an equal transformed list finds an entry [e]
+      that is not younger than [L] (this is what the freshness test of the 304 establishes, up to the one-second
+      resolution of HTTP dates: C04) only if that entry still holds [f] for it: "not modified" is the truth.
+      [one_key]: the URL is cached under one of its two keys only (pages that do not switch between the server
+      cache preferences QueryMatters and Full). *)
+  Theorem honest_not_modified_sound : forall L c2 hs2 t1 ops2 c3 hs3 t3 r r' f k e c3',
+    InvV hstate compute rules_of c2 ->
+    (pc_find (key_pq r) c2 = None \/ pc_find (key_p r) c2 = None) ->
+    ((exists k0 e0, (k0 = key_pq r \/ k0 = key_p r) /\ pc_find k0 c2 = Some e0 /\
+                    vr_get_by_request (ve_var e0) r = Ok (Hit (f, own_tuple rules_of r)) /\ L <= ve_created e0)
+     \/ (pc_find (key_pq r) c2 = None /\ pc_find (key_p r) c2 = None)) ->
+    later L t1 ops2 ->
+    runV_state hstate compute cache_on ims_on parse_ims sanitize_ok prime negotiate rules_of dbg (c2, hs2) t1 ops2 = Ok ((c3, hs3), t3) ->
+    path_query r' = path_query r -> own_tuple rules_of r' = own_tuple rules_of r ->
+    vlookup r' c3 t3 = ((k, Some e), c3') -> ve_created e <= L ->
+    vr_get_by_request (ve_var e) r' = Ok (Hit (f, own_tuple rules_of r')).
+  Proof. exact (honest_not_modified hstate compute cache_on ims_on parse_ims sanitize_ok prime negotiate rules_of dbg). Qed.
+
+  (** ... and this is how a client comes to hold a copy in that sense: it was served from the cache (dated with
+      the entry's date), its response was computed and admitted (dated with the time of the step = the new
+      entry's date), or computed and pushed into the entry it missed in (dated with the old entry's date; the
+      entry that now holds the variant is dated with the time of the step) *)
+  Theorem served_copy_is_held :
+    (forall r c now k e c1 f,
+       vlookup r c now = ((k, Some e), c1) -> vr_get_by_request (ve_var e) r = Ok (Hit (f, own_tuple rules_of r)) ->
+       holds_copy rules_of c1 r f (ve_created e)) /\
+    (forall c1 hs' now r f lg lm_of cached st' rp lg' calls,
+       may_store cache_on (rq_method r) f = true ->
+       new_and_cache hstate cache_on negotiate rules_of dbg c1 hs' now r f lg lm_of cached = Ok (st', rp, lg', calls) ->
+       holds_copy rules_of (fst st') r f now /\ rp = finishV negotiate r f (own_tuple rules_of r) (lm_of f) cached) /\
+    (forall c hs now r ok k e position headers st' rp lg calls,
+       InvV hstate compute rules_of c -> (k = key_pq r \/ k = key_p r) ->
+       pc_find k c = Some e -> vfresh e now = true -> ve_created e <= now ->
+       vr_get_by_request (ve_var e) r = Ok (Miss position headers) ->
+       vary_missing hstate compute cache_on ims_on negotiate rules_of dbg c hs now r ok k position headers = Ok (st', rp, lg, calls) ->
+       holds_copy rules_of (fst st') r (fst (fst (compute hs r ok))) (ve_created e) /\
+       rp = finishV negotiate r (fst (fst (compute hs r ok))) (own_tuple rules_of r) ims_on true).
+  Proof.
+    exact (conj (hit_gives_copy hstate compute sanitize_ok prime negotiate rules_of dbg)
+            (conj (stored_gives_copy hstate compute cache_on sanitize_ok prime negotiate rules_of dbg)
+                  (pushed_gives_copy hstate compute cache_on ims_on negotiate rules_of dbg))).
+  Qed.
 End C05_wire.
 
 (** (5) before the repair of [send] (model component vary.wire_v0; reproduced on the real code): the 416 page
@@ -408,3 +453,18 @@ Example ex_same_entry :
   = Ok (Hit (mkFat 200 [] (B "page") SP_FULL true, headers_for_request ex_rules (ex_req [])))
   /\ own_tuple (fun _ => ex_rules) (ex_req []) = own_tuple (fun _ => ex_rules) (ex_req [(B "x-a", [233])]).
 Proof. split; vm_compute; reflexivity. Qed.
+
+(** the hypotheses of [honest_not_modified_sound] are met by [ex_cache] (one entry under the path key), the client
+    of [ex_same_entry], a history of one wait and one request of another client, and a date of 500 ms *)
+Example ex_honest :
+  InvV N ex_compute (fun _ => ex_rules) ex_cache /\
+  (pc_find (key_pq (ex_req [])) ex_cache = None \/ pc_find (key_p (ex_req [])) ex_cache = None) /\
+  holds_copy (fun _ => ex_rules) ex_cache (ex_req []) (mkFat 200 [] (B "page") SP_FULL true) 500 /\
+  later 500 500 [OWait 2000; OReq (ex_req [(B "x-a", B "zebra")])] /\
+  ~ later 500 500 [OReq (ex_req [(B "x-a", B "zebra")])].
+Proof.
+  split; [exact ex_cache_inv|]. split; [left; reflexivity|]. split.
+  - left. exists (KPath (B "/v")), (mkVE (mkVaried ex_rules [ (mkFat 200 [] (B "page") SP_FULL true, headers_for_request ex_rules (ex_req [])) ]) 500 None).
+    split; [right; reflexivity|]. split; [reflexivity|]. split; [vm_compute; reflexivity|]. cbn [ve_created]. lia.
+  - split; [cbn; lia | cbn; lia].
+Qed.
